@@ -371,8 +371,22 @@ func (x *Exec) doStore(st *State, fi int, addr Value, v Value, addrV ssa.Value, 
 		x.recHeap(n)
 	}
 	v.T = x.valueTerm(v)
+	// a plain store to a field that the protocol declares as a step
+	stepAnchor := ""
+	if fi == 0 && x.ginv != nil && l.Root != nil && len(l.Path) > 0 {
+		if sT, ok := structOf(l.Root); ok {
+			a := "store " + sT.Field(l.Path[0]).Name()
+			if x.isStep(a) {
+				stepAnchor = a
+				x.ginvBefore(st, fi, a)
+			}
+		}
+	}
 	x.storeLoc(st, l, v)
 	x.ghostAtStore(st, fi, l)
+	if stepAnchor != "" {
+		x.ginvAfter(st, fi, stepAnchor, st.frames[fi].fn.Blocks[0].Instrs[0])
+	}
 }
 
 func (x *Exec) binop(st *State, in *ssa.BinOp, a, b Value) Value {
